@@ -13,6 +13,11 @@
 //!     every leaf kind at every position of every bracketed construct, real
 //!     parse tree vs printed tree vs the Lean look-ahead model, values on the
 //!     JIT; literal spellings in `return` / block / parenthesis positions.
+//!  G. prefix operators × operand kinds × postfix forms (`src/c09/postfix.rs`):
+//!     real parse tree vs Lean reference vs Lean model on expressions that mix
+//!     `!` / `-`, every kind of atom, method calls / fields / `?` and binary
+//!     operators, nested; values on the JIT against documented values and
+//!     against the fully parenthesised form.
 //!
 //! usage: c09 run <seed> <quick|thorough>
 //!        c09 replay <json>
@@ -26,6 +31,8 @@ use std::net::{IpAddr, Ipv4Addr, Ipv6Addr};
 
 #[path = "../c09/lookahead.rs"]
 mod lookahead;
+#[path = "../c09/postfix.rs"]
+mod postfix;
 
 // ------------------------------------------------------------------ operators
 
@@ -1221,6 +1228,9 @@ fn run(seed: u64, thorough: bool) -> Report {
     // F. bracketed constructs × mode-switching tokens (boundary tables first)
     lookahead::run(&mut rep, &mut drv, &mut p, thorough);
 
+    // G. prefix operators × operand kinds × postfix forms (class representatives first)
+    postfix::run(&mut rep, &mut drv, &mut p, thorough);
+
     // A. operator sequences
     let mut seqs = vec![];
     exhaustive_seqs(4, &[""], &mut seqs);
@@ -1373,7 +1383,7 @@ fn replay(case: &Value) -> Report {
             }
         }
         other => {
-            if !lookahead::replay(&mut rep, case) {
+            if !lookahead::replay(&mut rep, case) && !postfix::replay(&mut rep, case) {
                 rep.notes.push(format!("unknown replay kind {other}"));
             }
         }
